@@ -206,4 +206,5 @@ def run(ctx):
                     ctx.violation("R04.3", f.short + "/mantissa", "%s reads Decimal::mantissa() at a non-zero scale: '100.0' is taken for 1000" % f.short, b.site(bi), f.short + "/mantissa")
     ctx.floor("R04.3", "mantissa_sites", n_mant, 1)
     lr.rule_byte_offsets(ctx, "R04.4")
+    lr.rule_ascii_lookahead_premise(ctx, "R04.4p")
     ctx.assume("decimal spellings are delegated to rust_decimal's FromStr; BEGINEXT content is kept as written tokens; arbitrary statement order is accepted because every construct parser is an order-insensitive loop (not re-checked here)")
